@@ -65,8 +65,15 @@ def run(ctx):
             if (X, s) in distinct:
                 continue
             distinct.add((X, s))
-            a = accept(P, meta, s)
-            b = accept(P, r7405, s)
+            # vary which recogniser sees the text first (results must not depend on it)
+            order = rng.randrange(3)
+            c_first = accept(P, r5234, s) if (order == 0 and r5234 is not None) else None
+            if order == 1:
+                b = accept(P, r7405, s)
+                a = accept(P, meta, s)
+            else:
+                a = accept(P, meta, s)
+                b = accept(P, r7405, s)
             evals += 1
             kinds[(X, a)] = kinds.get((X, a), 0) + 1
             if len(samples) < 4 and a is True and len(s) > 6:
@@ -77,8 +84,14 @@ def run(ctx):
                 rep += 1
                 ctx.report("rfc7405.Rule(%r) and the ABNF reader disagree on %r: reader=%s module=%s" % (X, s, a, b),
                            {"kind": "selfdesc", "module": "rfc7405", "rule": X, "fragment": s, "reader": a, "bundled": b}, key="selfdesc:rfc7405:%s" % X)
-            if r5234 is not None and not has_7405_marker(s):
+            if r5234 is not None:
                 c = accept(P, r5234, s)
+                if c_first is not None and c_first != c and rep < 6:
+                    found = True
+                    rep += 1
+                    ctx.report("rfc5234.Rule(%r) gives different answers on %r depending on which recogniser parsed it before: %s then %s" % (X, s, c_first, c),
+                               {"kind": "selfdesc-order", "module": "rfc5234", "rule": X, "fragment": s, "reader": a, "bundled": c}, key="selfdesc-order:%s" % X)
+            if r5234 is not None and not has_7405_marker(s):
                 evals += 1
                 if a != c and (X, "5234") not in reported and rep < 6:
                     reported.add((X, "5234"))
